@@ -15,3 +15,5 @@ func raceEnable()                       {}
 
 // RaceErrors returns the number of races reported so far.
 func RaceErrors() int { return 0 }
+
+func markReleased(x any, sync unsafe.Pointer) {}
